@@ -62,11 +62,13 @@ struct Item
   size_t bytes;  // model size in the stream
 };
 
-static std::string rndString(vh::Rng &r, size_t n)
+// std::string payloads are binary-safe (embedded NUL bytes are frequent); only the const char*
+// form, which measures with strlen, gets NUL-free text
+static std::string rndString(vh::Rng &r, size_t n, bool allowNul)
 {
   std::string s(n, ' ');
   for (size_t i = 0; i < n; ++i)
-    s[i] = (char)r.range(1, 255);  // no NUL: the const char* form measures with strlen
+    s[i] = allowNul && r.chance(1, 6) ? '\0' : (char)r.range(allowNul ? 0 : 1, 255);
   return s;
 }
 static size_t rndLen(vh::Rng &r)
@@ -90,7 +92,7 @@ static Item genItem(vh::Rng &r)
   case K_POD: it.bytes = sizeof(Pod); break;
   case K_STRING:
   case K_CSTR:
-    it.str   = rndString(r, n);
+    it.str   = rndString(r, n, it.kind == K_STRING);
     it.bytes = 8 + n;
     break;
   case K_VEC_INT:
@@ -119,7 +121,7 @@ static Item genItem(vh::Rng &r)
     size_t m = r.below(6);
     it.bytes = 8;
     for (size_t i = 0; i < m; ++i) {
-      it.vs.push_back(rndString(r, rndLen(r) % 40));
+      it.vs.push_back(rndString(r, rndLen(r) % 40, true));
       it.bytes += 8 + it.vs.back().size();
     }
     break;
